@@ -130,6 +130,18 @@ func (m *monC01) Event(ev *hermes.VerifEvent, rc *RunCtx) {
 		}
 		if gwChanged {
 			rc.Cov("gw_change_days", 1)
+			// the daily groundwater update may rewrite the water below the table, but only when the groundwater input gives
+			// another level than the day before: on a plateau of the series (or a constant level) nothing may touch the water
+			if ev.Zeit != m.begZeit && !gwInputChanges(rc.Sc, ev.Zeit) && !m.measToday {
+				for z := 0; z < g.N; z++ {
+					if m.wgStart[z] != m.wgDayBegin[z] {
+						rc.Violate("C01", "water_changed_by_groundwater_update_on_constant_level", fmt.Sprintf("the groundwater input gives the same level as the day before, yet the level in use moved (%.17g -> %.17g) and layer %d water content was rewritten before the water routine (%.17g -> %.17g): water created / lost without any flux", m.grwBegin, g.GRW, z+1, m.wgDayBegin[z], m.wgStart[z]), ev.Zeit, z+1, nil)
+						break
+					}
+				}
+			}
+		} else if rc.Sc.GWMode == 2 && !gwInputChanges(rc.Sc, ev.Zeit) {
+			rc.Cov("days_on_a_plateau_of_the_groundwater_series", 1)
 		}
 		m.sumTPeff, m.sumQN, m.sumQOut, m.sumDrain, m.sumWdt, m.nsub = 0, 0, 0, 0, 0, 0
 		m.sicker0 = g.SICKER + g.CAPSUM
